@@ -38,7 +38,7 @@ fn figures(cx: &mut Ctx, what: &str, tour: &Tour) {
 }
 
 pub fn tour_call(cx: &mut Ctx, s: &Schedule, before: &Snap, op: &Value) {
-    let kind = op["op"].as_str().unwrap_or("");
+    let kind = op["op"].as_str().unwrap_or("").to_string();
     let v = match op["v"].as_str().and_then(parse_vehicle) {
         Some(v) => v,
         None => return,
@@ -48,11 +48,18 @@ pub fn tour_call(cx: &mut Ctx, s: &Schedule, before: &Snap, op: &Value) {
         Err(_) => return,
     };
     let is_dummy = before.dummies.contains_key(&v);
-    let t_nodes: Vec<NodeIdx> = tour.all_nodes_iter().collect();
     let nd = |cx: &Ctx, k: &str| op[k].as_str().and_then(|n| cx.node(n));
-    // the path argument: explicit nodes, or the sub-tour between a and b
-    let mut p_nodes: Vec<NodeIdx> = op["nodes"].as_array().map(|a| a.iter().filter_map(|x| x.as_str().and_then(|n| cx.node(n))).collect()).unwrap_or_default();
+    let p_nodes: Vec<NodeIdx> = op["nodes"].as_array().map(|a| a.iter().filter_map(|x| x.as_str().and_then(|n| cx.node(n))).collect()).unwrap_or_default();
     let (a, b) = (nd(cx, "a"), nd(cx, "b"));
+    tour_call_core(cx, &kind, &tour, is_dummy, p_nodes, a, b);
+}
+
+/// one tour-edit comparison: `kind` in tour_insert | tour_conflict | tour_remove | tour_sub_path
+pub fn tour_call_core(cx: &mut Ctx, kind: &str, tour: &Tour, is_dummy: bool, p_nodes: Vec<NodeIdx>, a: Option<NodeIdx>, b: Option<NodeIdx>) {
+    let tour = tour.clone();
+    let t_nodes: Vec<NodeIdx> = tour.all_nodes_iter().collect();
+    // the path argument: explicit nodes, or the sub-tour between a and b
+    let mut p_nodes = p_nodes;
     if p_nodes.is_empty() {
         if let (Some(a), Some(b)) = (a, b) {
             if let (Some(x), Some(y)) = (t_nodes.iter().position(|n| *n == a), t_nodes.iter().position(|n| *n == b)) {
@@ -189,4 +196,107 @@ pub fn tour_call(cx: &mut Ctx, s: &Schedule, before: &Snap, op: &Value) {
         }
         _ => {}
     }
+}
+
+/// C12, small scope exhaustively: on the (small) network of this run, ALL valid tours over its
+/// activities (per type, with every start/end depot pair incl. the overflow depot, and as dummy
+/// tours), ALL valid paths of up to 3 activities (with/without leading and trailing depot) and
+/// ALL segments of each tour are pushed through insert_path / conflict / remove / check_removable /
+/// sub_path and compared with the reference semantics. Returns the number of comparisons.
+pub fn run_exhaust(cx: &mut Ctx) -> u64 {
+    let nw = cx.ad.nw.clone();
+    let mut comparisons = 0u64;
+    let starts: Vec<NodeIdx> = nw.start_depot_nodes().collect();
+    let ends: Vec<NodeIdx> = nw.end_depot_nodes().collect();
+    for t in 0..cx.inst.types.len() {
+        let vt = cx.ad.ref_to_type[t];
+        let mut acts: Vec<NodeIdx> = cx
+            .ad
+            .node_to_act
+            .iter()
+            .filter(|(_, &a)| cx.inst.acts[a].kind == crate::refmodel::ActKind::Maint || cx.inst.acts[a].vtype == Some(t))
+            .map(|(n, _)| *n)
+            .collect();
+        acts.sort_by_key(|n| (cx.inst.acts[cx.ad.node_to_act[n]].start, cx.inst.acts[cx.ad.node_to_act[n]].end));
+        if acts.is_empty() || acts.len() > 7 {
+            continue;
+        }
+        // all chains (subsets in time order whose consecutive members are connectable)
+        let mut chains: Vec<Vec<NodeIdx>> = vec![];
+        for mask in 1u32..(1 << acts.len()) {
+            let c: Vec<NodeIdx> = (0..acts.len()).filter(|i| mask & (1 << i) != 0).map(|i| acts[i]).collect();
+            if c.windows(2).all(|w| reach(&cx.ad, &cx.inst, w[0], w[1])) {
+                chains.push(c);
+            }
+        }
+        // tours: every chain with two depot pairs (first real pair, overflow) + as dummy (service trips only)
+        let mut tours: Vec<(Tour, bool)> = vec![];
+        let depot_pairs: Vec<(NodeIdx, NodeIdx)> = {
+            let mut v = vec![];
+            if let (Some(&s0), Some(&e0)) = (starts.first(), ends.last()) {
+                v.push((s0, e0));
+            }
+            if starts.len() >= 2 {
+                v.push((*starts.last().unwrap(), ends[0]));
+            }
+            v
+        };
+        for c in &chains {
+            for (sd, ed) in &depot_pairs {
+                let mut nodes = vec![*sd];
+                nodes.extend_from_slice(c);
+                nodes.push(*ed);
+                if let Ok(Ok((s2, v))) = guarded(|| Schedule::empty(nw.clone()).spawn_vehicle_for_path(vt, nodes.clone())) {
+                    if let Ok(tr) = s2.tour_of(v) {
+                        tours.push((tr.clone(), false));
+                    }
+                    if c.iter().all(|n| nw.node(*n).is_service()) && sd == &depot_pairs[0].0 {
+                        if let Ok(Ok(s3)) = guarded(|| s2.replace_vehicle_by_dummy(v)) {
+                            if let Some(d) = s3.dummy_iter().next() {
+                                if let Ok(tr) = s3.tour_of(d) {
+                                    tours.push((tr.clone(), true));
+                                }
+                            }
+                        }
+                    }
+                }
+            }
+        }
+        // paths: chains of <= 3 activities, plain / with leading start depot / with trailing end depot / both
+        let mut paths: Vec<Vec<NodeIdx>> = vec![];
+        for c in chains.iter().filter(|c| c.len() <= 3) {
+            paths.push(c.clone());
+            if let (Some(&sd), Some(&ed)) = (starts.first(), ends.first()) {
+                let mut p1 = vec![sd];
+                p1.extend_from_slice(c);
+                paths.push(p1.clone());
+                let mut p2 = c.clone();
+                p2.push(ed);
+                paths.push(p2);
+                p1.push(ed);
+                paths.push(p1);
+            }
+        }
+        for (tour, is_dummy) in &tours {
+            let t_nodes: Vec<NodeIdx> = tour.all_nodes_iter().collect();
+            for p in &paths {
+                tour_call_core(cx, "tour_insert", tour, *is_dummy, p.clone(), None, None);
+                tour_call_core(cx, "tour_conflict", tour, *is_dummy, p.clone(), None, None);
+                comparisons += 2;
+            }
+            for i in 0..t_nodes.len() {
+                for j in i..t_nodes.len() {
+                    tour_call_core(cx, "tour_remove", tour, *is_dummy, vec![], Some(t_nodes[i]), Some(t_nodes[j]));
+                    tour_call_core(cx, "tour_sub_path", tour, *is_dummy, vec![], Some(t_nodes[i]), Some(t_nodes[j]));
+                    comparisons += 2;
+                }
+            }
+            if !cx.out.is_empty() {
+                return comparisons;
+            }
+        }
+        *cx.probes.entry("exhaust_tours".into()).or_insert(0) += tours.len() as u64;
+        *cx.probes.entry("exhaust_paths".into()).or_insert(0) += paths.len() as u64;
+    }
+    comparisons
 }
